@@ -166,6 +166,33 @@ func (w *World) CheckStep(op *OpSpec, pre, post *Dump, class string) []Failure {
 		}
 	}
 
+	// slot identity: a slot is exactly (hash, index).  A lock of a slot that does
+	// not exist must fail; a lock call changes no slot it did not name.
+	if isLock {
+		named := map[string]bool{}
+		for _, t := range ts {
+			named[t.String()] = true
+			if _, ok := w.holder(pre, t); !ok && t.fam == "U" && class == "ok" {
+				add("missing-slot-locked", fmt.Sprintf("%s succeeded on %s, which does not exist", op.Op, t))
+			}
+		}
+		for _, t := range allSlots(pre) {
+			h1, _ := w.holder(pre, t)
+			h2, ok2 := w.holder(post, t)
+			if (!ok2 || h1 != h2) && !named[t.String()] {
+				add("untargeted-slot-changed", fmt.Sprintf("%s changed %s (%s -> %s), a slot it did not name", op.Op, t, h1, h2))
+			}
+		}
+	}
+	// a stored body disappears only through a fork lock call
+	if !(isLock && op.Fork) {
+		for b := range pre.Body {
+			if !post.Body[b] {
+				add("body-removed", fmt.Sprintf("%s removed the stored body of %s", op.Op, b))
+			}
+		}
+	}
+
 	// holders: a finalized holder is never displaced; any change of a holder is a
 	// fork takeover of a pending transaction whose body is gone afterwards
 	for _, t := range allSlots(pre) {
